@@ -300,7 +300,7 @@ func c03Model(c *Ctx) error {
 	pool := newPool(12, run)
 	cfgs := []string{"ParserCtlMC.quick.cfg"}
 	if c.Thorough() {
-		cfgs = []string{"ParserCtlMC.quick.cfg", "ParserCtlMC.k3.cfg", "ParserCtlMC.k5.cfg"}
+		cfgs = []string{"ParserCtlMC.quick.cfg", "ParserCtlMC.k3.cfg", "ParserCtlMC.k4.cfg"}
 	}
 	var err error
 	for _, cfg := range cfgs {
